@@ -1885,19 +1885,21 @@ impl Typer {
                 let name = &hint;
                 let mut args_tast = Vec::new();
                 let mut arg_types = Vec::new();
-                for arg in args.iter() {
-                    let arg_tast = self.infer_expr(genv, local_env, diagnostics, *arg);
-                    arg_types.push(arg_tast.get_ty());
-                    args_tast.push(arg_tast);
-                }
-                if let Some(func_ty) = lookup_function_type_by_hint(genv, name.as_str()) {
-                    let inst_ty = self.inst_ty(&func_ty);
-                    if let tast::Ty::TFunc { params, .. } = &inst_ty
-                        && params.len() == args.len()
-                        && !params.is_empty()
+                // Type each argument exactly once: against the parameter type when the callee's
+                // signature is known, by inference otherwise. (Inferring first and checking again
+                // made nested calls f(f(f(…))) cost 2^depth.)
+                let known_func_ty = lookup_function_type_by_hint(genv, name.as_str());
+                let known_inst_ty = known_func_ty.as_ref().map(|func_ty| self.inst_ty(func_ty));
+                let param_tys = match &known_inst_ty {
+                    Some(tast::Ty::TFunc { params, .. })
+                        if params.len() == args.len() && !params.is_empty() =>
                     {
-                        args_tast.clear();
-                        arg_types.clear();
+                        Some(params.clone())
+                    }
+                    _ => None,
+                };
+                match &param_tys {
+                    Some(params) => {
                         for (arg, expected_ty) in args.iter().zip(params.iter()) {
                             let arg_tast =
                                 self.check_expr(genv, local_env, diagnostics, *arg, expected_ty);
@@ -1905,6 +1907,15 @@ impl Typer {
                             args_tast.push(arg_tast);
                         }
                     }
+                    None => {
+                        for arg in args.iter() {
+                            let arg_tast = self.infer_expr(genv, local_env, diagnostics, *arg);
+                            arg_types.push(arg_tast.get_ty());
+                            args_tast.push(arg_tast);
+                        }
+                    }
+                }
+                if let Some(inst_ty) = known_inst_ty {
 
                     let ret_ty = if name.as_str() == "ref" && args_tast.len() == 1 {
                         let elem_ty =
@@ -1984,22 +1995,21 @@ impl Typer {
                 {
                     let mut args_tast = Vec::new();
                     let mut arg_types = Vec::new();
-                    for arg in args.iter() {
-                        let arg_tast = self.infer_expr(genv, local_env, diagnostics, *arg);
-                        arg_types.push(arg_tast.get_ty());
-                        args_tast.push(arg_tast);
-                    }
-
                     let inst_ty = self.inst_ty(&func_ty);
+                    // each argument is typed once (see the resolved-callee case above)
                     if let tast::Ty::TFunc { params, .. } = &inst_ty
                         && params.len() == args.len()
                         && !params.is_empty()
                     {
-                        args_tast.clear();
-                        arg_types.clear();
                         for (arg, expected_ty) in args.iter().zip(params.iter()) {
                             let arg_tast =
                                 self.check_expr(genv, local_env, diagnostics, *arg, expected_ty);
+                            arg_types.push(arg_tast.get_ty());
+                            args_tast.push(arg_tast);
+                        }
+                    } else {
+                        for arg in args.iter() {
+                            let arg_tast = self.infer_expr(genv, local_env, diagnostics, *arg);
                             arg_types.push(arg_tast.get_ty());
                             args_tast.push(arg_tast);
                         }
